@@ -19,10 +19,21 @@ static int g_handed[40];
 
 GHOST static void note(int code, uint64_t v) { fmc_watch_note(code, v); }
 
-static const int counts[][3] = {{2, 2, 0}, {1, 1, 1}, {2, 1, 0}, {3, 1, 0}, {2, 1, 1}};
+static const int counts[][3] = {{2, 2, 0}, {1, 1, 1}, {2, 1, 0}, {3, 1, 0}, {2, 1, 1}, {3, 0, 0}};
+// -Dsession=1: the run starts in the MIDDLE of a long worker session: 2^32-2 items have been pushed
+// and handed out since the queue was last found empty (in_count == out_count == 2^32-2, fifo
+// empty) and thread 2 is the active worker, about to ask for more work. The ticket counter is not
+// a depth: it only returns to 0 when the worker finds the queue drained, so any number of items
+// means any value of it.
+static int session;
 
 static void* body(void* p) {
   int t = (int)(intptr_t)p;
+  if (session && t == 2) {
+    work_queue_item_t* out;
+    while (work_queue_get_work(&wq, &out) == WORK_QUEUE_MORE_WORK) note(N_HANDOUT, (uint64_t)(intptr_t)out->data);
+    note(N_EMPTYRET, 0);
+  }
   for (int i = 0; i < counts[shape][t - 1]; i++) {
     int id = t * 10 + i;
     work_queue_item_t* it = &items[t - 1][i];
@@ -44,7 +55,7 @@ GHOST static void check(int total) {
   fmc_wev_t* l = fmc_watch_log();
   int n = fmc_watch_n();
   int last_atomic[4] = {-1, -1, -1, -1};
-  int worker = -1;         // thread currently in a worker episode (by decision instants)
+  int worker = session ? 2 : -1;  // thread currently in a worker episode (by decision instants)
   // decision events ordered by the instant of the deciding atomic operation
   struct { int idx, thread, kind; } dec[64];
   int ndec = 0;
@@ -94,7 +105,9 @@ GHOST static void check(int total) {
 
 int harness_main(void) {
   shape = fmc_param("shape", 0);
+  session = fmc_param("session", 0);
   work_queue_init(&wq);
+  if (session) wq.in_count = wq.out_count = 4294967294LL;
   fmc_watch((void*)&wq.in_count);
   int nt = counts[shape][2] ? 3 : 2;
   raw_run(nt, body);
